@@ -156,8 +156,8 @@ var boundary = []input{
 	mk("run", "boundary", []string{"a", "b", "c"}, "b,b"),
 }
 
-var wildNames = []string{"a", "b", "c", "!a", "!b", "!c", "any", "ANY", "Any", "!any", "zz", "!zz", "eth0", "!eth0", "eth0", "a", "!a"}
-var wildAll = []string{"a", "b", "c", "eth0", "any", "zz"}
+var wildNames = []string{"a", "b", "c", "!a", "!b", "!c", "any", "ANY", "Any", "!any", "zz", "!zz", "eth0", "!eth0", "eth0", "a", "!a", "abcdefghijklmno", "!abcdefghijklmno", "abcdefghijklmnop"}
+var wildAll = []string{"a", "b", "c", "eth0", "any", "zz", "abcdefghijklmno"}
 var regexes = []string{"a", "^a$", "[ab]", "[^a]", "eth[0-2]", "a|c", ".*", "", "^$", "(", "[", "a{2}", "\\d", "^e", "b$", ".", "a/b", "x*", "(?i)A", "*"}
 var malformed = []string{"", ",", "a,", ",a", "a,,b", "!", "!!a", "a b", " a", "a ", "a\n", "a\tb", "a\xff", "\xc3\xa4", "a;b", "a/b", "abcdefghijklmnop",
 	"!abcdefghijklmnop", "a,!", "any,", "a,b,", "/", "//", "/a/", "!/a/", "a!", "a!b", "*", "a,*", "\x00"}
